@@ -151,7 +151,7 @@ func oneRun(c *fw.Ctx, cert *tlsutil.Cert, index, nConns int) {
 	stopAfter := 1 + r.Intn(nConns/2+1)
 
 	// plan connections
-	classes := []byte("ABBBCCPPEUFT")
+	classes := []byte("ABBBCCPPEUFTL")
 	plans := make([]*connPlan, nConns)
 	for k := range plans {
 		cl := classes[r.Intn(len(classes))]
@@ -171,7 +171,10 @@ func oneRun(c *fw.Ctx, cert *tlsutil.Cert, index, nConns int) {
 			if cl == 'B' {
 				p.Expect = s
 			}
-		case 'C':
+		case 'C', 'L':
+			// L = like C, but the client delivers the bytes that the routes after the non-terminal one need only in a
+			// second segment (so matching has to wait for data again after a route already matched) and sends the rest
+			// of its stream long after the matching timeout: a handed-over connection must still deliver it
 			s[0] = 'C'
 			s[5] = 'x'
 			p.Wire = s
@@ -239,7 +242,7 @@ func oneRun(c *fw.Ctx, cert *tlsutil.Cert, index, nConns int) {
 			readers.Add(1)
 			go func() {
 				defer readers.Done()
-				_ = cn.SetReadDeadline(time.Now().Add(20 * time.Second))
+				// (no read deadline of our own: a deadline left armed by layer4 must show up as a truncated stream)
 				b := drive.ReadAll(cn)
 				mu.Lock()
 				a.data = b
@@ -281,6 +284,15 @@ func oneRun(c *fw.Ctx, cert *tlsutil.Cert, index, nConns int) {
 				}
 				_, _ = tc.Write(p.Stream)
 				_ = tc.CloseWrite()
+				return
+			}
+			if p.Class == 'L' {
+				_, _ = p.client.Write(p.Wire[:9])
+				time.Sleep(3 * time.Millisecond)
+				_, _ = p.client.Write(p.Wire[9:22])
+				time.Sleep(time.Duration(timeoutMs)*time.Millisecond + 250*time.Millisecond)
+				_, _ = p.client.Write(p.Wire[22:])
+				_ = p.client.CloseWrite()
 				return
 			}
 			_ = drive.WriteSegments(p.client, p.Wire, p.Segs, 3, 30*time.Microsecond)
